@@ -184,7 +184,7 @@ Theorem C09_reopen_le_completes : forall m h psm credits dcid credits', reachabl
   tget h (nid m h) (m_reqs m) = None ->
   let m1 := fst (step m (EOpen h K_LE psm 1 0 credits)) in
   tget h dcid (m_le m1) = None ->
-  let m2 := fst (step m1 (ERecv h (FLeRsp (nid m h) dcid credits' R_OK))) in
+  let m2 := fst (step m1 (ERecv h (FLeRsp (nid m h) dcid credits' R_OK true))) in
   wout m2 (wuid m) = O_RESULT /\
   exists c, hget m2 (huid m) = Some c /\ c_st c = SConnected /\ c_dcid c = dcid /\
             In (h, c_scid c, huid m) (m_chs m2) /\ In (h, dcid, huid m) (m_le m2).
@@ -199,7 +199,7 @@ Theorem C09_reopen_le_accept : forall m h id psm scid credits srv, reachable m -
   tget h scid (m_le m) = None ->
   Z.of_nat (List.length (tkeys h (m_chs m))) < le_capacity ->
   exists local,
-    snd (step m (ERecv h (FLeReq id psm scid credits true))) = [FLeRsp id local srv R_OK] /\
+    snd (step m (ERecv h (FLeReq id psm scid credits true))) = [FLeRsp id local srv R_OK true] /\
     le_cid_lo <= local <= le_cid_hi /\ tget h local (m_chs m) = None /\
     let m1 := fst (step m (ERecv h (FLeReq id psm scid credits true))) in
     In (h, local, huid m) (m_chs m1) /\ In (h, scid, huid m) (m_le m1).
@@ -243,8 +243,8 @@ Print Assumptions C09_close_reopen_le.
 (* its hypotheses hold for the channel of the simplest history (open, accepted), and the CID
    handed out after the close is the very same one *)
 Example C09_close_reopen_example :
-  let m := fst (run (m_init [] []) [EOpen 1 K_LE 128 1 0 3; ERecv 1 (FLeRsp 1 80 2 R_OK)]) in
-  evs_ok (m_init [] []) [EOpen 1 K_LE 128 1 0 3; ERecv 1 (FLeRsp 1 80 2 R_OK)] = true /\
+  let m := fst (run (m_init [] []) [EOpen 1 K_LE 128 1 0 3; ERecv 1 (FLeRsp 1 80 2 R_OK true)]) in
+  evs_ok (m_init [] []) [EOpen 1 K_LE 128 1 0 3; ERecv 1 (FLeRsp 1 80 2 R_OK true)] = true /\
   option_map (fun c => (c_kind c, c_st c, c_live c, c_scid c, c_conn c)) (hget m 0) =
     Some (KLe, SConnected, true, 64, 1) /\
   snd (run m [EClose 0; ERecv 1 (FDiscRsp 2 80 64); EOpen 1 K_LE 128 1 0 3]) =
@@ -252,12 +252,33 @@ Example C09_close_reopen_example :
 Proof. vm_compute. repeat split. Qed.
 
 (* ---- non-vacuity and necessity of hypotheses *)
+(* (D17g) A successful credit-based connection response whose MTU / MPS are outside the limits
+   is a refusal, in every state: the manager does exactly what it does for the corresponding
+   refusing response (so everything proved about refusals - tables exact, futures failed -
+   holds for it) ... *)
+Theorem C09_bad_params_is_refusal : forall m h id dcid credits dcids,
+  step m (ERecv h (FLeRsp id dcid credits R_OK false)) = step m (ERecv h (FLeRsp id dcid credits R_LE_BAD_PARAMS true)) /\
+  step m (ERecv h (FEnhRsp id credits R_OK dcids false)) = step m (ERecv h (FEnhRsp id credits R_ENH_BAD_PARAMS dcids true)).
+Proof. exact bad_params_is_refusal. Qed.
+Print Assumptions C09_bad_params_is_refusal.
+
+(* ... for example: the awaited open fails, no table keeps an entry, and the next open is
+   handed the same CID again *)
+Example C09_bad_params_example :
+  let es := [EOpen 1 K_LE 128 1 0 3; ERecv 1 (FLeRsp 1 80 2 R_OK false); EOpen 1 K_LE 128 1 0 3] in
+  let r := run (m_init [] []) es in
+  evs_ok (m_init [] []) es = true /\
+  snd r = [[FLeReq 1 128 64 3 true]; []; [FLeReq 2 128 64 3 true]] /\
+  map w_out (m_w (fst r)) = [O_ERROR; O_PENDING] /\
+  m_chs (fst r) = [(1, 64, 1)] /\ m_le (fst r) = [] /\ m_reqs (fst r) = [(1, 2, 64)].
+Proof. vm_compute. repeat split. Qed.
+
 (* a history that satisfies the hypotheses: open, accept, close, reopen on the same
    connection, a second connection, link loss *)
 Example C09_history_ok :
-  let es := [EOpen 1 K_LE 128 1 0 3; ERecv 1 (FLeRsp 1 64 2 0); EClose 0; ERecv 1 (FDiscRsp 2 64 64);
-             EOpen 1 K_LE 128 1 0 3; EOpen 2 K_LE 128 1 0 3; ERecv 2 (FLeRsp 1 64 2 0);
-             ERecv 1 (FLeRsp 3 64 2 0); EDown 2] in
+  let es := [EOpen 1 K_LE 128 1 0 3; ERecv 1 (FLeRsp 1 64 2 0 true); EClose 0; ERecv 1 (FDiscRsp 2 64 64);
+             EOpen 1 K_LE 128 1 0 3; EOpen 2 K_LE 128 1 0 3; ERecv 2 (FLeRsp 1 64 2 0 true);
+             ERecv 1 (FLeRsp 3 64 2 0 true); EDown 2] in
   let m := fst (run (m_init [(128, 2)] [(4097, 0)]) es) in
   evs_ok (m_init [(128, 2)] [(4097, 0)]) es = true /\
   m_chs m = [(1, 64, 1)] /\ m_le m = [(1, 64, 1)] /\ map w_out (m_w m) = [1; 1; 1; 1].
